@@ -113,19 +113,88 @@ Proof.
   intros E. apply pw_zero in E; [|apply step1_facts; reflexivity]. vm_compute in E. discriminate.
 Qed.
 
+(* ---- bursts shorter than 16 bits, anywhere in a frame of at least 16 bits ---- *)
+(* a 16-element bit list is bits16 of a number below 2^16 *)
+Fixpoint of_bits (l : list bool) : N := match l with [] => 0 | b :: l => b2n b + 2 * of_bits l end.
+Lemma of_bits_lt l : of_bits l < 2 ^ N.of_nat (length l).
+Proof.
+  induction l as [|b l IH]; [reflexivity|]. cbn [of_bits length]. rewrite Nat2N.inj_succ, N.pow_succ_r'.
+  destruct b; cbn [b2n]; lia.
+Qed.
+Lemma testbit_of_bits l : forall i, N.testbit (of_bits l) (N.of_nat i) = nth i l false.
+Proof.
+  induction l as [|b l IH]; intros i; [destruct i; reflexivity|]. cbn [of_bits]. destruct i as [|i].
+  - cbn [nth N.of_nat]. destruct b; cbn [b2n]; [rewrite N.add_comm; apply N.testbit_odd_0 | rewrite N.add_0_l; apply N.testbit_even_0].
+  - rewrite Nat2N.inj_succ. cbn [nth]. destruct b; cbn [b2n].
+    + rewrite N.add_comm. rewrite N.testbit_odd_succ by lia. apply IH.
+    + rewrite N.add_0_l. rewrite N.testbit_even_succ by lia. apply IH.
+Qed.
+Lemma bits16_of_bits l : length l = 16%nat -> bits16 (of_bits l) = l.
+Proof.
+  intros H. do 17 (destruct l as [|? l]; try discriminate). clear H.
+  unfold bits16. cbn [seq map]. rewrite !testbit_of_bits. reflexivity.
+Qed.
+Lemma of_bits_zero l : of_bits l = 0 -> l = repeat false (length l).
+Proof.
+  induction l as [|b l IH]; [reflexivity|]. cbn [of_bits length repeat]. destruct b; cbn [b2n]; [lia|].
+  intros H. f_equal. apply IH. lia.
+Qed.
+
+(* a burst of at most 16 bits: w starts anywhere, is at most 16 long and not all zero; the frame has at least 16 bits *)
+Lemma zeros_app a c : zeros (a + c) = zeros a ++ zeros c.
+Proof. unfold zeros. apply repeat_app. Qed.
+
+Lemma skipn_zeros_app n (l : list bool) : skipn n (zeros n ++ l) = l.
+Proof. induction n; [reflexivity|]. cbn. assumption. Qed.
+Lemma firstn_app_exact {A} (l r : list A) : firstn (length l) (l ++ r) = l.
+Proof. induction l; cbn; [reflexivity|]. now f_equal. Qed.
+
+Theorem short_burst_is_window a w z :
+  (length w <= 16)%nat -> w <> zeros (length w) -> (16 <= a + length w + z)%nat ->
+  exists a' x z', x < 65536 /\ x <> 0 /\ zeros a ++ w ++ zeros z = zeros a' ++ bits16 x ++ zeros z'.
+Proof.
+  intros Hw Hnz Hlen. set (p := (16 - length w)%nat).
+  (* pad to the right as far as z allows, the rest to the left *)
+  set (pr := Nat.min p z). set (pl := (p - pr)%nat).
+  exists (a - pl)%nat, (of_bits (zeros pl ++ w ++ zeros pr)), (z - pr)%nat.
+  assert (Hl16 : length (zeros pl ++ w ++ zeros pr) = 16%nat).
+  { rewrite !app_length. unfold zeros. rewrite !repeat_length. unfold pl, pr, p. lia. }
+  split; [|split].
+  - pose proof (of_bits_lt (zeros pl ++ w ++ zeros pr)) as H. rewrite Hl16 in H. exact H.
+  - intros E. apply of_bits_zero in E. rewrite Hl16 in E. apply Hnz.
+    (* the middle part of an all-zero list is all zero *)
+    assert (Hm : w = firstn (length w) (skipn pl (zeros pl ++ w ++ zeros pr))).
+    { rewrite skipn_zeros_app, firstn_app_exact. reflexivity. }
+    rewrite Hm at 1. rewrite E.
+    assert (forall n k, skipn k (repeat false n) = repeat false (n - k)) as Hs.
+    { induction n; intros [|k]; cbn; auto. }
+    assert (forall n k, firstn k (repeat false n) = repeat false (Nat.min k n)) as Hf.
+    { induction n; intros [|k]; cbn; auto. f_equal. apply IHn. }
+    rewrite Hs, Hf. unfold zeros. f_equal. unfold pl, pr, p. lia.
+  - rewrite bits16_of_bits by exact Hl16. rewrite <- !app_assoc.
+    assert (Hpl : (pl <= a)%nat) by (unfold pl, pr, p; lia).
+    assert (Hpr : (pr <= z)%nat) by (unfold pr; lia).
+    replace a with ((a - pl) + pl)%nat at 1 by lia. replace z with (pr + (z - pr))%nat at 1 by lia.
+    rewrite !zeros_app, <- !app_assoc. reflexivity.
+Qed.
+
 (* the three error classes, as patterns over the bits of the whole frame in wire order
    (byte by byte, least significant bit first; the CRC trailer low byte first) *)
 Definition err_class (bs : list bool) : Prop :=
   (exists a z, bs = zeros a ++ [true] ++ zeros z) \/
   (exists a d z, (1 <= d <= 2100)%nat /\ bs = zeros a ++ [true] ++ zeros (d - 1) ++ [true] ++ zeros z) \/
-  (exists a x z, x < 65536 /\ x <> 0 /\ bs = zeros a ++ bits16 x ++ zeros z).
+  (exists a x z, x < 65536 /\ x <> 0 /\ bs = zeros a ++ bits16 x ++ zeros z) \/
+  (* a burst: every flipped bit lies in a span w of at most 16 bits (the frame itself has at least 16 bits) *)
+  (exists a w z, (length w <= 16)%nat /\ w <> zeros (length w) /\ (16 <= length bs)%nat /\ bs = zeros a ++ w ++ zeros z).
 
 Lemma err_class_syn bs : err_class bs -> syn bs <> 0.
 Proof.
-  intros [(a & z & ->)|[(a & d & z & Hd & ->)|(a & x & z & Hx & Hn & ->)]].
+  intros [(a & z & ->)|[(a & d & z & Hd & ->)|[(a & x & z & Hx & Hn & ->)|(a & w & z & Hw & Hnz & Hl & ->)]]].
   - apply single_detected.
   - now apply double_detected.
   - now apply burst_detected.
+  - rewrite !app_length in Hl. unfold zeros in Hl. rewrite !repeat_length in Hl.
+    destruct (short_burst_is_window a w z Hw Hnz ltac:(lia)) as (a' & x & z' & Hx & Hn & ->). now apply burst_detected.
 Qed.
 
 Theorem detect_word body eb e : bytes body -> length eb = length body -> e < W -> bytes (xor_bytes body eb) ->
@@ -313,4 +382,31 @@ Proof.
   rewrite rref_one_frame by assumption.
   replace (crc (addr :: pdu) mod 256 + 256 * (crc (addr :: pdu) / 256))%N with (crc (addr :: pdu)) by lia.
   rewrite N.eqb_refl. cbn [length]. reflexivity.
+Qed.
+
+(* ---- detection at session level, in one statement ---- *)
+(* a valid frame hit by a length-preserving error pattern of one of the classes: CrcValidationFailure,
+   nothing delivered, whatever follows and however the bytes are cut into reads *)
+Theorem rtu_corrupted_frame_rejected : forall p addr pdu lo hi ea epdu elo ehi rest chunks fi,
+  bytes (addr :: pdu ++ [lo; hi]) -> bytes (ea :: epdu ++ [elo; ehi]) -> bytes rest -> length epdu = length pdu ->
+  (lo + 256 * hi)%N = crc (addr :: pdu) ->
+  err_class (bits_of (ea :: epdu ++ [elo; ehi])) ->
+  delimited (role_of p) (xor_bytes pdu epdu) -> length pdu <= 253 ->
+  concat chunks = xor_bytes (addr :: pdu ++ [lo; hi]) (ea :: epdu ++ [elo; ehi]) ++ rest -> nonempty_chunks chunks ->
+  exists received expected, received <> expected /\
+    run_session (kind_of p) false chunks fi = ([], EndBad (CrcValidationFailure received expected)).
+Proof.
+  intros p addr pdu lo hi ea epdu elo ehi rest chunks fi HF HE Hrest Hl Hcrc Hcls Hdel Hlen Hs Hnc.
+  change (addr :: pdu ++ [lo; hi]) with ((addr :: pdu) ++ [lo; hi]) in *.
+  change (ea :: epdu ++ [elo; ehi]) with ((ea :: epdu) ++ [elo; ehi]) in *.
+  destruct (detect_frame (addr :: pdu) lo hi (ea :: epdu) elo ehi HF HE ltac:(cbn [length]; now rewrite Hl) Hcrc Hcls) as [Hx Hne].
+  rewrite Hx in Hs. cbn [xor_bytes app] in Hs, Hne.
+  exists (N.lxor lo elo + 256 * N.lxor hi ehi)%N, (crc (N.lxor addr ea :: xor_bytes pdu epdu)). split; [exact Hne|].
+  apply (rtu_detect_session p (N.lxor addr ea) (xor_bytes pdu epdu) (N.lxor lo elo) (N.lxor hi ehi) rest chunks fi); try assumption.
+  - assert (Hb : bytes (xor_bytes ((addr :: pdu) ++ [lo; hi]) ((ea :: epdu) ++ [elo; ehi]))) by (apply bytes_xor; assumption).
+    rewrite Hx in Hb. cbn [xor_bytes app] in Hb. unfold bytes in *.
+    inversion Hb as [|? ? HA HX]; subst. constructor; [exact HA|]. apply Forall_app in HX as [H1 H2].
+    apply Forall_app; split; [exact H1|]. apply Forall_app; split; [exact H2|exact Hrest].
+  - rewrite xor_bytes_length by assumption. exact Hlen.
+  - rewrite Hs. cbn [app]. now rewrite <- app_assoc.
 Qed.
